@@ -72,6 +72,7 @@ K_HINT = "readlines-nonpositive-hint|(any,any,readlines(<=0))"
 K_CLOSED = "closed-file-op-succeeds|(any,any,close;tell/seek/flush)"
 K_CLOSED_TRUNC = "truncate-on-closed-file|(any,any,close;truncate)"
 K_TRUNC_STATE = "truncate-ignores-buffered-state|(any,any,readahead/pending-write/append;truncate)"
+K_APPEND_TELL = "append-write-stale-server-position|(a/a+,any,read;write;read-at-naive-position)"
 
 EXCLUSIONS = {
     "truncate": K_TRUNCATE,
@@ -81,6 +82,9 @@ EXCLUSIONS = {
     "closed": K_CLOSED,
     "closedtrunc": K_CLOSED_TRUNC,
     "truncstate": K_TRUNC_STATE,
+    # nothing is excluded by construction for this one (the sanitiser cannot see request offsets); listing it here
+    # makes the root-cause attribution (server handle's cached position != its real one) active while it is open
+    "appendtell": K_APPEND_TELL,
 }
 NAME_OF_KEY = dict((v, k) for k, v in EXCLUSIONS.items())
 
@@ -159,7 +163,14 @@ PROFILES = {
     "reader": (8, 8, 3, 4, 1, 0, 5, 5, 0, 0, 0, 1, 0),
     "writer": (2, 1, 0, 0, 10, 3, 6, 4, 3, 3, 0, 1, 1),
     "readwrite": (6, 6, 1, 2, 8, 1, 3, 4, 1, 1, 0, 0, 1),
+    # programs made of revisit bursts (seeks back to where earlier operations / requests ended) on read-write handles
+    "revisit": (6, 6, 1, 2, 8, 1, 3, 4, 1, 1, 0, 0, 1),
 }
+
+
+def _w(strategy, n):
+    """``n`` distinct copies of a strategy (one_of() drops repeated occurrences of the same object)."""
+    return [strategy.map(lambda v: v) for _ in range(n)]
 
 
 @functools.lru_cache(maxsize=None)
@@ -188,6 +199,14 @@ def _ops(alphabet, text_ok, modes, profile="mixed"):
     n_read = st.sampled_from([None, None, None, -1, 0, 1, 2, 3, 5, 17, 100, 1023, 1024, 1025, 3000, 8191, 8192, 8193, 40000])
     n_line = st.sampled_from([None, None, -1, 0, 1, 2, 3, 5, 100, 9000])
     n_hint = st.sampled_from([None, None, -1, 0, 1, 2, 5, 6, 7, 50, 5000])
+    # seeks to positions taken from the handle's own past (resolved when executed, see _CaseState._hist_target):
+    # "naive" = where the position would be if every read/write of the program had simply advanced it, "wire" = the same
+    # for the requests on the wire: end of the last READ request plus the bytes of the WRITE requests sent since (for an
+    # append-mode file neither is where the position really is), "reqK" = where the K-th most recent request of the
+    # client ended; plus a small delta
+    hseek = st.tuples(
+        st.just("seek"), st.sampled_from([0, 0, 0, 0, 0, 0, 0, 0, 1, -1, 4, -4]), st.sampled_from(["wire", "wire", "wire", "wire", "naive", "req0", "req1", "req1", "req2"])
+    )
     seek = st.one_of(
         st.tuples(st.just("seek"), st.one_of(st.integers(0, 12), st.integers(0, 40), st.integers(0, 40), st.integers(0, 6000), st.integers(0, 70000)), st.just(0)),
         st.tuples(st.just("seek"), st.integers(0, 12), st.just(0)),
@@ -221,6 +240,14 @@ def _ops(alphabet, text_ok, modes, profile="mixed"):
     writes = st.one_of(ops[4][1], ops[4][1], ops[5][1])
     read_burst = st.lists(reads, min_size=2, max_size=5)
     mixed_burst = st.lists(st.one_of(reads, reads, writes, writes, ops[7][1], seek), min_size=2, max_size=5)
+    # revisits: reads and writes interleaved with seeks back to where earlier operations ended
+    # (a seek shows only in what the next read returns / where the next write lands: it comes paired with one)
+    revisit = st.tuples(hseek, st.one_of(*(_w(reads, 3) + _w(writes, 1))))
+    # half of these bursts start near the beginning of the file (an append-mode handle starts at its end, where reads are empty)
+    revisit_burst = st.tuples(
+        st.one_of(st.just(None), st.tuples(st.just("seek"), st.integers(0, 12), st.just(0))),
+        st.lists(st.one_of(*(_w(reads, 1) + _w(writes, 1) + _w(revisit, 2))), min_size=2, max_size=5),
+    ).map(lambda t: ([t[0]] if t[0] else []) + [o for x in t[1] for o in (x if isinstance(x[0], tuple) else (x,))])
     # read(all)/readlines() leave the position at EOF, where every further read is trivially empty:
     # most of the time they are followed by a seek back into the file
     back = st.tuples(st.just("seek"), st.integers(0, 12), st.just(0))
@@ -230,14 +257,22 @@ def _ops(alphabet, text_ok, modes, profile="mixed"):
         return [o, b] if (terminal and use) else [o]
 
     one = st.builds(follow, single, back, st.sampled_from([True, True, True, False]))
-    return st.one_of(one, one, one, one, read_burst, mixed_burst)
+    if profile == "revisit":
+        return st.one_of(*(_w(revisit_burst, 4) + [one, mixed_burst]))
+    return st.one_of(one, one, one, one, read_burst, mixed_burst, revisit_burst)
 
 
 @st.composite
 def case_st(draw, max_steps=40, max_init=20000):
     binary_only = draw(st.booleans())
-    profile = draw(st.sampled_from(["mixed", "mixed", "reader", "writer", "readwrite", "readwrite"]))
-    pool = {"mixed": WEIGHTED_MODES, "reader": ["r", "r+", "r+", "a+", "w+"], "writer": WEIGHTED_MODES + ["w", "wx", "w+x"], "readwrite": ["r+", "r+", "w+", "a+"]}[profile]
+    profile = draw(st.sampled_from(["mixed", "mixed", "reader", "writer", "readwrite", "readwrite", "revisit"]))
+    pool = {
+        "mixed": WEIGHTED_MODES,
+        "reader": ["r", "r+", "r+", "a+", "w+"],
+        "writer": WEIGHTED_MODES + ["w", "wx", "w+x"],
+        "readwrite": ["r+", "r+", "w+", "a+"],
+        "revisit": ["r+", "w+", "a+", "a+"],
+    }[profile]
     if binary_only:
         modes = _modes(tuple(m + "b" for m in pool))
         alphabet = BIN_ALPHABET
@@ -248,8 +283,9 @@ def case_st(draw, max_steps=40, max_init=20000):
     if "x" in mode and draw(st.integers(0, 3)) > 0:
         init = None
     else:
-        init = draw(_init(alphabet, profile not in ("reader", "readwrite"), max_init))
-    bufsize = draw(st.sampled_from(BUFSIZES))
+        init = draw(_init(alphabet, profile not in ("reader", "readwrite", "revisit"), max_init))
+    # (an unbuffered file turns every read/write into exactly one request: the revisit profile prefers it)
+    bufsize = draw(st.sampled_from(BUFSIZES + [0, 0, -1] if profile == "revisit" else BUFSIZES))
     pipelined = draw(st.booleans())
     nmin = draw(st.sampled_from([1, 1, 4, 8, 16, 30]))
     dense_tell = draw(st.integers(0, 2)) == 0  # a tell() after every step: position bookkeeping is checked densely
@@ -414,7 +450,7 @@ def _op_label(op):
     if k == "readlines":
         return "readlines()" if op[1] is None else ("readlines(<=0)" if op[1] <= 0 else "readlines(hint)")
     if k == "seek":
-        return "seek%d" % op[2]
+        return "seek%d" % op[2] if isinstance(op[2], int) else "seek:history"
     if k == "wtext":
         return "write"
     return k
@@ -536,6 +572,9 @@ class _CaseState:
         self.trace = []
         self.classes = set()
         self.opened_ok = False
+        self.naive = 0  # position if every read/write had simply advanced it (what a position cache believes)
+        self.wire = 0  # the same for the requests on the wire: end of the last READ request + bytes of the WRITEs sent since
+        self.reqs = []  # distinct request-cursor values of the client (ends of its requests), oldest first
 
     # -- helpers ----------------------------------------------------------------
     def _disk(self, path):
@@ -588,6 +627,9 @@ class _CaseState:
             rf.set_pipelined(True)
         self.rf, self.lf = rf, lf
         self.opened_ok = True
+        t = _call(lf.tell)
+        self.naive = self.wire = t if isinstance(t, int) else 0
+        self.reqs = []
         self.classes.add("mode:" + _mode_class(mode))
         self.classes.add("buf:" + _buf_class(bufsize))
         if pipelined:
@@ -667,6 +709,7 @@ class _CaseState:
         if hz is not None and self.hazard is None and NAME_OF_KEY[hz] in self.r.attribute:
             self.hazard = hz
         # ---- perform ----------------------------------------------------------
+        n_reads0 = self.r.env.n_reads if self.r.env is not None else 0
         if k == "read":
             rr, lr = _call(rf.read, op[1]), _call(lf.read, op[1] if op[1] is not None else -1)
         elif k == "readline":
@@ -685,7 +728,13 @@ class _CaseState:
         elif k == "writelines":
             rr, lr = _call(rf.writelines, list(op[1])), _call(lf.writelines, list(op[1]))
         elif k == "seek":
-            off, wh = self._clamp_seek(op[1], op[2])
+            if isinstance(op[2], int):
+                off, wh = self._clamp_seek(op[1], op[2])
+            else:
+                off, wh = self._hist_target(op[1], op[2]), 0
+                self.classes.add("seek:to-%s-position" % op[2] if op[2] in ("naive", "wire") else "seek:to-earlier-request-end")
+                if "a" in self.mode and op[2] in ("naive", "wire") and off != self._local_pos():
+                    self.classes.add("seek:append,%s-position!=real" % op[2])
             rr, lr = _call(rf.seek, off, wh), _call(lf.seek, off, wh)
         elif k == "tell":
             rr, lr = _call(rf.tell), _call(lf.tell)
@@ -697,6 +746,26 @@ class _CaseState:
             rr, lr = _call(rf.close), _call(lf.close)
         else:
             raise core.HarnessError("unknown op %r" % (op,))
+        # ---- the handle's past (generator state for history-relative seeks; no part of the oracle) ----
+        if not isinstance(lr, _Raised) and lr is not STOP:
+            if k in READ_KINDS:
+                self.naive += sum(len(x) for x in lr) if isinstance(lr, list) else len(lr)
+            elif k in WRITE_KINDS:
+                self.naive += _payload_len(op)
+            elif k == "seek":
+                self.naive = self._local_pos()
+        rp = getattr(rf, "_realpos", None)
+        if not remote_closed and not isinstance(rr, _Raised):
+            sent = (_payload_len(op) if k in WRITE_KINDS else 0) + wb - rf._wbuffer.tell()
+            self.wire += max(0, sent)
+            if k in READ_KINDS and isinstance(rp, int) and self.r.env is not None and self.r.env.n_reads != n_reads0:
+                self.wire = rp
+        if isinstance(rp, int) and (not self.reqs or self.reqs[-1] != rp):
+            self.reqs.append(rp)
+        # the server handle served a request of this step from a position other than the requested one
+        if k in READ_KINDS and self.hazard is None and "a" in self.mode and "appendtell" in self.r.attribute:
+            if self.r.env is not None and self.r.env.n_reads != n_reads0 and self._server_position_stale():
+                self.hazard = K_APPEND_TELL
         if k in READ_KINDS and not isinstance(lr, _Raised) and (lf.closed or not lf.readable()):
             # CPython quirk: IOBase.readline(0) on a write-only (even closed) file returns b'' without
             # checking anything; the reference behaviour of a read on such a file is "raises".
@@ -742,6 +811,35 @@ class _CaseState:
         if k == "seek":
             self.history = []
         self.history.append(label)
+
+    def _local_pos(self):
+        t = _call(self.lf.tell)
+        return t if isinstance(t, int) else self.naive
+
+    def _hist_target(self, delta, which):
+        """Absolute target of a history-relative seek."""
+        if which == "naive":
+            base = self.naive
+        elif which == "wire":
+            base = self.wire
+        else:
+            k = int(which[3:])
+            base = self.reqs[-1 - k] if k < len(self.reqs) else self.naive
+        return max(0, base + delta)
+
+    def _server_position_stale(self):
+        """Attribution only: after a READ request of the current step has been answered (the server is idle again),
+        does the server-side handle's cached position differ from the real position of its file?  It does exactly
+        when the request was served without a seek from somewhere else than the requested offset."""
+        srv = getattr(self.r.env, "server", None)
+        h = getattr(srv, "file_table", {}).get(getattr(self.rf, "handle", None))
+        cached = getattr(h, "_SFTPHandle__tell", None)
+        if h is None or cached is None:
+            return False
+        try:
+            return h.readfile.tell() != cached
+        except (OSError, ValueError, AttributeError):
+            return False
 
     def _clamp_seek(self, off, wh):
         lf = self.lf
